@@ -123,11 +123,12 @@ Theorem C10_number_range_exception : exists p t v, t <> [] /\
   from_input (mkEnv RSlice TEof (mkCfg false false false false)) p = Err NumberOutOfRange (length p).
 Proof.
   exists (repeat 49 400), [101; 45; 50; 48; 48].
-  destruct (from_input (mkEnv RSlice TEof (mkCfg false false false false)) (repeat 49 400 ++ [101; 45; 50; 48; 48])) as [v| | |] eqn:Hv.
-  - exists v. split; [discriminate|]. split; [reflexivity|]. vm_compute. reflexivity.
-  - exfalso. revert Hv. vm_compute. discriminate.
-  - exfalso. revert Hv. vm_compute. discriminate.
-  - exfalso. revert Hv. vm_compute. discriminate.
+  exists (match from_input (mkEnv RSlice TEof (mkCfg false false false false)) (repeat 49 400 ++ [101; 45; 50; 48; 48])
+          with Ok v => v | _ => VNull end).
+  split; [discriminate|]. split.
+  - vm_cast_no_check (@eq_refl (res value)
+      (from_input (mkEnv RSlice TEof (mkCfg false false false false)) (repeat 49 400 ++ [101; 45; 50; 48; 48]))).
+  - vm_cast_no_check (@eq_refl (res value) (Err NumberOutOfRange 400%nat)).
 Qed.
 
 Lemma eofish_NumberOutOfRange_not_eof : category NumberOutOfRange <> CatEof.
